@@ -945,3 +945,29 @@ Proof. vm_compute. auto. Qed.
 Lemma prefix_pickle_refuted :
   mk_literal [] true [48; 49] None (Some xsd_integer) = WTerm (Lit [49] (Some xsd_integer) None).
 Proof. vm_compute. reflexivity. Qed.
+
+(* ------------------------------------------------------------------ *)
+(* suite "pickler" *)
+
+Lemma unpickle_not_any : forall o t, unpickle o t <> WAny.
+Proof.
+  intros o t. destruct t as [s|s|s|lex dt lang]; cbn [unpickle]; try discriminate.
+  - destruct s as [|c r]; cbn [mk_var]; [discriminate|]. destruct (N.eqb c 63); discriminate.
+  - unfold mk_literal. destruct lang as [[|x l]|], dt as [d|]; try discriminate;
+      destruct (valid_lang (x :: l)); discriminate.
+Qed.
+
+Lemma all_same_unpickle : forall o l, forallb wf_term l = true -> all_same l (map (unpickle o) l) = true.
+Proof.
+  intros o l. induction l as [|t l IH]; intro H; auto.
+  cbn [forallb] in H. apply andb_true_iff in H as [W H]. cbn [map all_same].
+  pose proof (pickle_same o t W) as P. pose proof (unpickle_not_any o t) as N.
+  destruct (unpickle o t) as [| |t']; try congruence; try discriminate.
+  cbn [same_as] in P. rewrite P. apply IH. exact H.
+Qed.
+
+Theorem pspec_ok_model : forall ts, forallb wf_term ts = true -> pspec_ok ts (pmodel_obs ts) = true.
+Proof.
+  intros ts H. unfold pspec_ok, pmodel_obs. apply all_same_unpickle.
+  rewrite forallb_app, H. reflexivity.
+Qed.
